@@ -361,7 +361,9 @@ class OrderedRingBuffer(Generic[FloatArray]):
         start = max(start, self.oldest_timestamp)
         end = min(end, self.newest_timestamp + self._sampling_period)
 
-        if start >= end:
+        # Both bounds are mapped to slots below: a span that covers no slot is empty
+        # (equal positions would otherwise be taken for the whole buffer).
+        if self.normalize_timestamp(start) >= self.normalize_timestamp(end):
             return np.array([]) if isinstance(self._buffer, np.ndarray) else []
 
         start_pos = self.to_internal_index(start)
